@@ -35,7 +35,7 @@ ASSUMPTIONS = [
 UTILS = "dagrt.codegen.utils"
 
 
-def check(run, P):
+def _check_main(run, P):
     run.rule("C20.lexer", "default tokeniser splits at whitespace outside quoted "
              "strings only, wherever the string starts, and interprets no comment "
              "characters; the Python wrapper's lexer honours backslash escapes, the "
@@ -444,3 +444,9 @@ def _use(run, P):
            construct="_emit: wrap_line(line, class level + function level), every piece emitted, "
                      "nothing emitted that did not come out of wrap_line",
            why="the width budget depends on the real indentation")
+
+
+def check(run, P):
+    _check_main(run, P)
+    from . import generic
+    generic.lints(run, P, "C20")
